@@ -12,7 +12,9 @@ inline std::vector<int> computeSubdivisions(int min, int max, int number) {
   assert(max >= min);
   std::vector<int> ret;
   for (int i = 0; i < number + 1; ++i) {
-    ret.push_back(min + (i * (max - min) / number));
+    // The product does not fit in an int for large placement areas
+    ret.push_back(min + static_cast<int>(static_cast<long long>(i) *
+                                         (max - min) / number));
   }
   assert((int)ret.size() == number + 1);
   assert(ret.front() == min);
